@@ -1,13 +1,14 @@
 package c14
 
 import (
+	"strings"
 	"testing"
 
 	"github.com/0xReLogic/Helios/verifharness/lab"
 	"pgregory.net/rapid"
 )
 
-const proxyRule = "rapid: size_limit at a drawn position among logging/headers (limits and number styles as in stub-terminal-rapid) in front of the REAL balancer with 1-2 raw scripted TCP backends; 1-3 exchanges per lab: " +
+const proxyRule = "rapid: size_limit at a drawn position among logging/headers (limits and number styles as in stub-terminal-rapid) in front of the REAL balancer with 1-2 raw scripted TCP backends; 1-6 (thorough 1-12) exchanges per lab (one kept-alive client connection): " +
 	"request without body (GET/HEAD/DELETE) or with a body of 0, L-1, L, L+1, 3L, 100 KiB in Content-Length or chunked framing; byte-exact backend response script: 15 statuses incl. 204/304/3xx/4xx/5xx (also empty), " +
 	"Content-Length / chunked / close-delimited framing, body of 0, M-1, M, M+1, 3M, 100 KiB in <=4 backend writes; oracle R1 (every backend's recorded body), R2 (413, no request arrived and no backend connection accepted), R3, S1, " +
 	"S2 (only when the first backend write alone overflows, Content-Length framing, M <= 1024), U differential against a second lab without size_limit (response at the client and request at the backend); " +
@@ -35,34 +36,35 @@ func TestC14ProxyRapid(t *testing.T) {
 	sub.Floor("plugin-wrapped-by-others", 0.15)
 	sub.Floor("plugin-wraps-others", 0.15)
 	lab.Assume("L2 with the real balancer: handler composition and server timeouts replicate cmd/helios/server.go (lab.BuildHandler, lab.NewSocketLab); raw TCP backends record the exact request and play byte-exact response scripts; HTTP/1.1 over loopback only; no interim 1xx, Expect: 100-continue, trailers or upgrades are generated for C14.")
-	lab.Check(t, sub, 2500, 80000, func(rt *rapid.T) {
+	lab.Check(t, sub, 4000, 30000, func(rt *rapid.T) {
 		ch := genChain(rt)
 		pcWith, err := ch.Plugins(true)
 		if err != nil {
 			rt.Fatalf("harness: yaml: %v\n%s", err, ch.YAML(true))
 		}
-		pcWithout, err := ch.Plugins(false)
-		if err != nil {
-			rt.Fatalf("harness: yaml: %v\n%s", err, ch.YAML(false))
-		}
 		nb := rapid.IntRange(1, 2).Draw(rt, "backends")
 		with, err := NewProxyLab(pcWith, nb)
+		if resourceError(err) {
+			Inconclusive(rt, "real-balancer-rapid", err.Error())
+		}
 		if err != nil {
 			rt.Fatalf("a valid size_limit configuration was refused: %v\n%s", err, ch.YAML(true))
 		}
 		defer with.Close()
-		without, err := NewProxyLab(pcWithout, nb)
+		without, err := RefProxyLab(ch, nb)
 		if err != nil {
-			rt.Fatalf("harness: %v", err)
+			Inconclusive(rt, "real-balancer-rapid", err.Error())
 		}
-		defer without.Close()
-		n := rapid.IntRange(1, 3).Draw(rt, "exchanges")
+		n := rapid.IntRange(1, lab.Scale(6, 12)).Draw(rt, "exchanges")
 		for i := 0; i < n; i++ {
 			c := ProxyCase{Chain: ch, Backends: nb}
 			c.Req = genRequest(rt, ch, true)
 			c.Resp = genScript(rt, ch)
 			before := proxyRaceRetries
 			v := JudgeProxy(&c, with, without, i == 0, &proxyRaceRetries)
+			if strings.HasPrefix(v.Viol, "harness:") {
+				Inconclusive(rt, "real-balancer-rapid", v.Viol)
+			}
 			for k := before; k < proxyRaceRetries; k++ {
 				sub.Excluded(keyRace)
 			}
